@@ -123,8 +123,13 @@ func (v *version) opGet(b []byte, abv string) {
 	}))
 }
 
-func (v *version) opObj(b []byte) {
-	emit("O "+v.name+" "+hexB(b), guard(func() string {
+// reached: the object was obtained through the public API only (zero value, Set, ParseVector)
+func (v *version) opObj(b []byte, reached bool) {
+	r := "0"
+	if reached {
+		r = "1"
+	}
+	emit("O "+v.name+" "+hexB(b)+" "+r, guard(func() string {
 		vec := v.vector(b)
 		nm := "-"
 		if v.name == "40" {
@@ -205,7 +210,7 @@ func replay(a []string) {
 	case "G":
 		verByName(a[1]).opGet([]byte(unhex(a[2])), unhex(a[3]))
 	case "O":
-		verByName(a[1]).opObj([]byte(unhex(a[2])))
+		verByName(a[1]).opObj([]byte(unhex(a[2])), len(a) > 3 && a[3] == "1")
 	case "F":
 		verByName(a[1]).opScore([]byte(unhex(a[2])))
 	case "R":
